@@ -1889,7 +1889,7 @@ Section Reopen.
     dir_blocks (s_disk s) v (d_cluster dd) = Some bl ->
     find (t_matches (e_name e)) (live_in_blocks (s_disk s) bl) = Some (e_block e, e_offset e, sl0) ->
     dir_home s v m bl [] -> (v_fat32 v = true -> ~ In (v_info v) bl) ->
-    is_directory (e_attr e) = false ->
+    is_directory (e_attr e) = false -> is_lfn (e_attr e) = false ->
     is_read_only (e_attr e) && negb (mode_eqb md ReadOnly) = false ->
     md = ReadOnly \/ md = ReadWriteAppend \/ md = ReadWriteCreateOrAppend ->
     (* no other record of the file table sits on this slot *)
@@ -1901,7 +1901,7 @@ Section Reopen.
       lc_inv fsz vid s1 (remove_member h m) /\
       open_keep fsz vid s1 (remove_member h m) d name md (Some bytes).
   Proof.
-    intros Hinv Hmem Hres Hdirty e Hdres Hdvol Hsfn Hdot Hbl Hfind Hdh Hinfobl Hnotdir Hro Hmd
+    intros Hinv Hmem Hres Hdirty e Hdres Hdvol Hsfn Hdot Hbl Hfind Hdh Hinfobl Hnotdir Hnlfn Hro Hmd
            Huniq Hlim Hfresh.
     destruct (C01_close_removes fsz vid s m h Hinv
                 (in_map m_handle m (h, w, (bytes, off)) Hmem)) as (s1c & Hrunc & Hinv1).
@@ -1929,7 +1929,7 @@ Section Reopen.
       cbn [length] in Hsize. clear - Hsize. lia. }
     destruct (C02_flush_then_lookup s h fi f vi0 v0 sI (d_cluster dd) bl sl0 Hnf Hc (fl_vol _ _ L) Hres Hdirty
                 (conj Hvol Hvi) HinfoI Hnp (so_ctime _ _ Hslot) (so_mtime _ _ Hslot) (so_name _ _ Hslot)
-                Hbl Hfind (Hwf _) (so_nfat _ _ Hslot)
+                Hnlfn Hbl Hfind (Hwf _) (so_nfat _ _ Hslot)
                 (fun E => conj (proj1 (Hinfo E)) (Hinfobl E)))
       as (sF' & HflushF & sL & Hlook & _ & _).
     rewrite Hflush in HflushF. injection HflushF as <-.
@@ -2044,7 +2044,7 @@ Corollary C01_close_reopen fsz vid s m h w bytes off fi f d di dd vi v name md b
   dir_blocks (s_disk s) v (d_cluster dd) = Some bl ->
   find (t_matches (e_name e)) (live_in_blocks (s_disk s) bl) = Some (e_block e, e_offset e, sl0) ->
   dir_home s v m bl [] -> (v_fat32 v = true -> ~ In (v_info v) bl) ->
-  is_directory (e_attr e) = false ->
+  is_directory (e_attr e) = false -> is_lfn (e_attr e) = false ->
   is_read_only (e_attr e) && negb (mode_eqb md ReadOnly) = false ->
   md = ReadOnly \/ md = ReadWriteAppend \/ md = ReadWriteCreateOrAppend ->
   (forall g, In g (s_files s) -> f_id g <> h ->
@@ -2056,9 +2056,9 @@ Corollary C01_close_reopen fsz vid s m h w bytes off fi f d di dd vi v name md b
     lc_inv fsz vid s2 ((s_next_id s, negb (mode_eqb md ReadOnly),
                         (bytes, if appending md then N.of_nat (length bytes) else 0)) :: remove_member h m).
 Proof.
-  intros Hinv Hmem Hres Hdirty e Hdres Hdvol Hsfn Hdot Hbl Hfind Hdh Hinfobl Hnotdir Hro Hmd Huniq Hlim Hfresh.
+  intros Hinv Hmem Hres Hdirty e Hdres Hdvol Hsfn Hdot Hbl Hfind Hdh Hinfobl Hnotdir Hnlfn Hro Hmd Huniq Hlim Hfresh.
   destruct (C01_reopen_covered fsz vid s m h w bytes off fi f d di dd vi v name md bl sl0 Hinv Hmem Hres Hdirty
-              Hdres Hdvol Hsfn Hdot Hbl Hfind Hdh Hinfobl Hnotdir Hro Hmd Huniq Hlim Hfresh)
+              Hdres Hdvol Hsfn Hdot Hbl Hfind Hdh Hinfobl Hnotdir Hnlfn Hro Hmd Huniq Hlim Hfresh)
     as (s1 & Hclose & Hnext & Hinv1 & Hcov).
   destruct (C01_lifecycle_step fsz vid (LOpen d name md (s_next_id s1) (Some bytes)) s1 (remove_member h m) Hinv1
               (conj eq_refl (or_introl Hcov))) as (x & s2 & Hrun & Hstep).
